@@ -628,7 +628,12 @@ pub fn judge_save(env: &Env, prop: &str, mode: &str, res: &Res<()>, w: &SimWrite
     }
     // prefix rule (always checked; for benign runs the prefix is everything accepted)
     if violation.is_none() {
-        let upto = w.accepted_at_first_hard.unwrap_or(w.accepted.len()).min(w.accepted.len());
+        // the first failure the code under test saw: a hard fault, or (flush has no retry contract) an interrupted flush
+        let first_failure = match (w.accepted_at_first_hard, w.first_flush_eintr_at) {
+            (Some(a), Some(b)) => Some(a.min(b)),
+            (a, b) => a.or(b),
+        };
+        let upto = first_failure.unwrap_or(w.accepted.len()).min(w.accepted.len());
         let upto = if matches!(res, Res::Ok(())) { w.accepted.len() } else { upto };
         if upto > env.ref_bytes.len() || w.accepted[..upto] != env.ref_bytes[..upto] {
             violation = viol(
